@@ -43,10 +43,13 @@ type schedPlan struct {
 	Schedule schedule    `json:"schedule"`
 	StepCap  int64       `json:"step_cap,omitempty"`
 	Record   string      `json:"record,omitempty"`
-	Shared   []string    `json:"shared_ent,omitempty"`       // caller buffers several tasks pass windows of (Op.Shared)
-	Foreign  bool        `json:"foreign_possible,omitempty"` // the tree starts goroutines of its own (set from the instrumenter's report)
-	Grants   bool        `json:"want_grants,omitempty"`
-	Focus    []int       `json:"focus,omitempty"` // informational: languages in focus
+	// Preinit: run in the binary whose crypto/rand.Reader IS the device multiplexer (no hook swap), so that
+	// paths the library takes only for the OS reader itself are scheduled too; device scripts are fault-free there
+	Preinit bool     `json:"preinit,omitempty"`
+	Shared  []string `json:"shared_ent,omitempty"`       // caller buffers several tasks pass windows of (Op.Shared)
+	Foreign bool     `json:"foreign_possible,omitempty"` // the tree starts goroutines of its own (set from the instrumenter's report)
+	Grants  bool     `json:"want_grants,omitempty"`
+	Focus   []int    `json:"focus,omitempty"` // informational: languages in focus
 }
 
 type schedStats struct {
@@ -87,11 +90,12 @@ type schedOut struct {
 }
 
 type c12Engine struct {
-	e     *Env
-	bin   string
-	solo  *Solo
-	sites map[int]instr.Site
-	mod   string // module path of the code under test
+	e       *Env
+	bin     string
+	binCold string // "" if the pre-init seam is unavailable on this tree (C07's business, not C12's)
+	solo    *Solo
+	sites   map[int]instr.Site
+	mod     string // module path of the code under test
 	// the tree starts goroutines of its own (or uses channels/timers): those run unscheduled,
 	// so runs are not fully controlled; replays are retried and the audit cannot be demanded
 	unmodelled bool
@@ -200,7 +204,15 @@ func (g *c12Engine) runPlan(sp *schedPlan, env ...string) (*schedOut, *schedVerd
 	}
 	racePath := filepath.Join(d, "race")
 	env = append([]string{"GORACE=halt_on_error=1 exitcode=66 atexit_sleep_ms=0 log_path=" + racePath, "GOMAXPROCS=4"}, env...)
-	p := g.e.RunProc(90*time.Second, env, d, g.bin, inP, outP)
+	bin := g.bin
+	if sp.Preinit && g.binCold != "" {
+		bin = g.binCold
+	}
+	p := g.e.RunProc(90*time.Second, env, d, bin, inP, outP)
+	if p.Exit == 4 && bin == g.binCold { // the tree's default source is not crypto/rand.Reader: hook configuration only
+		g.binCold = ""
+		p = g.e.RunProc(90*time.Second, env, d, g.bin, inP, outP)
+	}
 	switch {
 	case p.TimedOut:
 		return nil, &schedVerdict{Inconclusive: "worker killed after 90 s"}, nil
@@ -253,6 +265,13 @@ func (g *c12Engine) runPlan(sp *schedPlan, env ...string) (*schedOut, *schedVerd
 			}
 			if got.Equal(want) {
 				continue
+			}
+			if op.K == "new" && sp.Preinit && bin == g.binCold && want.IsNil {
+				// default-configured process: the library may legitimately treat the OS reader specially
+				// (read ahead, buffer); what must hold is C07's conservation form, checked below
+				if !ref.Supported(op.Lang) || g.readAheadTolerated(sp, &out, t, k) {
+					continue
+				}
 			}
 			if op.K == "new" && g.readAheadTolerated(sp, &out, t, k) {
 				continue
@@ -469,6 +488,10 @@ func buildC12(e *Env) (*c12Engine, *instr.Report, error) {
 	if err != nil {
 		return nil, nil, err
 	}
+	binCold, err := e.BuildHarnessMod("irepo", "./harness/schedsimcold", "schedsimcold", "-race")
+	if err != nil {
+		return nil, nil, err
+	}
 	// sanity gate: the instrumented copy still passes the repository's own tests
 	if o, err := e.Go(idir, "test", "-count=1", "./..."); err != nil {
 		if _, err2 := e.Go(e.RepoCopy(), "test", "-count=1", "./..."); err2 == nil {
@@ -476,7 +499,7 @@ func buildC12(e *Env) (*c12Engine, *instr.Report, error) {
 		}
 		e.Logf("C12: note: the repository's own tests fail on this tree (instrumented and plain alike)")
 	}
-	g := &c12Engine{e: e, bin: bin, solo: NewSolo(e, src), sites: map[int]instr.Site{}, mod: rep.Module, unmodelled: len(rep.Unmodelled) > 0}
+	g := &c12Engine{e: e, bin: bin, binCold: binCold, solo: NewSolo(e, src), sites: map[int]instr.Site{}, mod: rep.Module, unmodelled: len(rep.Unmodelled) > 0}
 	for _, s := range rep.Sites {
 		g.sites[s.ID] = s
 	}
@@ -610,6 +633,23 @@ func genSchedPlan(seed uint64, pool []plan.Op, byLang map[int][]int, neutral []i
 				sp.Tasks[t] = append(sp.Tasks[t][:at], append([]plan.Op{o}, sp.Tasks[t][at:]...)...)
 			}
 			break
+		}
+	}
+	if r.Intn(2) == 0 { // the default-configured process: devices are the OS reader itself, fault-free (fragmenting only)
+		sp.Preinit = true
+		for t := range sp.Tasks {
+			for k := range sp.Tasks[t] {
+				if op := &sp.Tasks[t][k]; op.K == "new" && op.Dev != nil {
+					d := *op.Dev
+					d.Script = nil
+					for _, st := range op.Dev.Script {
+						if st.E == "" && st.D > 0 {
+							d.Script = append(d.Script, st)
+						}
+					}
+					op.Dev = &d
+				}
+			}
 		}
 	}
 	sc := schedule{Mode: "policy", Seed: r.Uint64()}
@@ -787,6 +827,9 @@ func CheckC12(e *Env) (int, error) {
 				}
 				if len(sp.Shared) > 0 {
 					probes["runs_with_a_caller_buffer_shared_by_several_tasks"]++
+				}
+				if sp.Preinit && g.binCold != "" {
+					probes["runs_in_the_default_configured_process_preinit_seam"]++
 				}
 				if st.BlockedOnOnce > 0 {
 					probes["task_blocked_on_running_once"]++
